@@ -45,9 +45,11 @@ def words(*ws):
 
 
 # ------------------------------------------------------------------------------------ objects
-def write_sparse(obj, path, holes):
+def write_sparse(obj, path, holes, dense=False):
     """Write `obj` (elfgen) to `path`; every section in `holes` (Sec -> size) has empty data in
-    `obj` and gets a page-aligned hole of that size after the regular file contents."""
+    `obj` and gets a page-aligned hole of that size after the regular file contents. With `dense`
+    the zeros are really written (a file many links share: populating the page cache once with
+    write() is cheaper than every first reader faulting the pages in)."""
     blob, fmap = obj.to_bytes_with_map()
     blob = bytearray(blob)
     end = len(blob)
@@ -60,14 +62,19 @@ def write_sparse(obj, path, holes):
         end = off + size
     with open(path, "wb") as f:
         f.write(blob)
+        if dense:
+            zeros = bytes(8 * MiB)
+            left = end - len(blob)
+            while left > 0:
+                left -= f.write(zeros[:min(left, len(zeros))])
         f.truncate(end)
 
 
-def write_pad(path, size, align=4):
+def write_pad(path, size, align=4, dense=False):
     """A padding object: one retained `.text` section of `size` zero bytes, no symbols."""
     o = G.ElfObject("aarch64")
     t = o.section(".text", flags=AX | G.SHF_GNU_RETAIN, align=align)
-    write_sparse(o, path, {t: size})
+    write_sparse(o, path, {t: size}, dense=dense)
 
 
 def callee_so_object(path):
